@@ -29,6 +29,9 @@ CHECKS = {
  'C06': dict(tech=B, cat='model_checking',
              text='all 21 _CP functions and the 4 refractive-index entry points evaluated symbolically from the IR with the parser/NIST lookup as stubs returning NULL or a symbolic composition of 1..3 elements: mixture rule with the same trailing arguments, formula-then-NIST order, unknown-compound / density / energy errors, element failure => failure, Re/Im/complex agreement, and the composition object released exactly once on every path',
              note='double modelled as real; compositions of at most 3 elements (uniform loop body); elemental functions uninterpreted with error iff 0; parser/NIST behaviour is C07/C15'),
+ 'C02': dict(tech=B + '; the bisection loop of splint is cut with an inductive invariant (no unrolling)', cat='model_checking',
+             text='splint proved for every table length 1..1e9: range protocol with the 1e-7 band, bracketing interval, cubic formula, knot exactness, reads inside [1,n], termination; all 11 call sites proved to pass the knots/ordinates/second derivatives/length of the SAME quantity and element with the documented abscissa and result transform, to guard every table access, to propagate failure; Kissel log-log extension equals its documented clamped-slope form',
+             note='double modelled as real; log/exp uninterpreted; n >= 1 for present tables and NShells <= 29 are DL2 facts; the binding of table contents to data files (DL1) is not yet machine-checked in this round'),
 }
 NA = {
  'C19': 'no symbolic engine for Java/JVM bytecode is installed (no JBMC/SPF); a hand-written Java->SMT translator for 5900 lines using ByteBuffer I/O, exceptions and collections is out of reach; see DESIGN.md C19',
